@@ -67,7 +67,105 @@ impl Case {
     }
 }
 
-pub fn run_case(s: &str) -> Result<Vec<(String, String)>, String> { Ok(check(&Case::parse(s)?)) }
+pub fn run_case(s: &str) -> Result<Vec<(String, String)>, String> {
+    if s.starts_with("race=") { return Ok(race_probe(s)); }
+    if s.starts_with("par=") { return Ok(par_probe(s)); }
+    Ok(check(&Case::parse(s)?))
+}
+
+/// case `race=<n>;spin=<k>;cap=<c>`: n rounds of "build a queuing sink of capacity c around a sink
+/// that reports its own drop, wait a varying number of spins, drop the only handle". The drop of the
+/// last handle must always end the background thread and release the wrapped sink (C09), whatever the
+/// moment of the drop relative to the start of the thread. A schedule-dependent check: it can only
+/// miss a defect, never invent one (a round fails only if the wrapped sink is still alive after 2 s).
+/// case `par=<rounds>;threads=<k>;cap=<c|u>`: k producer threads, released together by a barrier, each
+/// emit three metrics through their own clone of one queuing sink, starting with the very first emits
+/// on that sink. Oracle (C08, and C12 for the wiring client -> queuing sink -> buffered sink): the
+/// wrapped sink is only ever run by ONE thread at a time, every accepted metric is handed over exactly
+/// once, and each producer's metrics are handed over in that producer's program order.
+fn par_probe(s: &str) -> Vec<(String, String)> {
+    use std::sync::atomic::AtomicUsize as AU;
+    use std::sync::Barrier;
+    let mut rounds = 20usize; let mut k = 4usize; let mut cap: Option<usize> = None;
+    for kv in s.split(';') {
+        let mut it = kv.splitn(2, '=');
+        let (key, v) = (it.next().unwrap_or(""), it.next().unwrap_or(""));
+        match key { "par" => rounds = v.parse().unwrap_or(rounds), "threads" => k = v.parse().unwrap_or(k), "cap" => cap = if v == "u" { None } else { v.parse().ok() }, _ => {} }
+    }
+    struct P { inside: AU, max_inside: AU, seen: Mutex<Vec<String>>, dropped: Mutex<Sender<()>> }
+    impl RefUnwindSafe for P {}
+    impl MetricSink for P {
+        fn emit(&self, m: &str) -> io::Result<usize> {
+            let cur = self.inside.fetch_add(1, Ordering::SeqCst) + 1;
+            self.max_inside.fetch_max(cur, Ordering::SeqCst);
+            self.seen.lock().unwrap().push(m.to_string());
+            std::thread::sleep(Duration::from_millis(2));
+            self.inside.fetch_sub(1, Ordering::SeqCst);
+            Ok(m.len())
+        }
+    }
+    struct PW(Arc<P>);
+    impl MetricSink for PW { fn emit(&self, m: &str) -> io::Result<usize> { self.0.emit(m) } }
+    impl Drop for PW { fn drop(&mut self) { let _ = self.0.dropped.lock().unwrap().send(()); } }
+    for round in 0..rounds {
+        let (dtx, drx) = channel();
+        let p = Arc::new(P { inside: AU::new(0), max_inside: AU::new(0), seen: Mutex::new(vec![]), dropped: Mutex::new(dtx) });
+        let q = match cap { Some(c) => QueuingMetricSink::with_capacity(PW(p.clone()), c), None => QueuingMetricSink::from(PW(p.clone())) };
+        let barrier = Arc::new(Barrier::new(k));
+        let mut hs = vec![];
+        for t in 0..k {
+            let (qc, b) = (q.clone(), barrier.clone());
+            hs.push(std::thread::spawn(move || {
+                b.wait();
+                let mut acc = vec![];
+                for j in 0..3 { let m = format!("t{}.{}:1|c", t, j); if qc.emit(&m).is_ok() { acc.push(m); } }
+                acc
+            }));
+        }
+        let accepted: Vec<Vec<String>> = hs.into_iter().map(|h| h.join().unwrap_or_default()).collect();
+        drop(q);
+        let released = drx.recv_timeout(Duration::from_secs(10)).is_ok();
+        let seen = p.seen.lock().unwrap().clone();
+        let mut fails = vec![];
+        let mx = p.max_inside.load(Ordering::SeqCst);
+        if mx > 1 { fails.push(format!("round {}: {} threads were inside the wrapped sink at the same time (the queue must have a single consumer)", round, mx)); }
+        for (t, acc) in accepted.iter().enumerate() {
+            let mine: Vec<&String> = seen.iter().filter(|m| m.starts_with(&format!("t{}.", t))).collect();
+            if mine.len() != acc.len() || mine.iter().zip(acc.iter()).any(|(a, b)| *a != b) {
+                fails.push(format!("round {}: producer {} had {:?} accepted in this order but the wrapped sink was handed {:?}", round, t, acc, mine));
+            }
+        }
+        if !released { fails.push(format!("round {}: the wrapped sink was not released within 10 s of the last drop", round)); }
+        if !fails.is_empty() {
+            let msg = fails.join("; ");
+            let mut out = vec![("C08".to_string(), msg.clone()), ("C12".to_string(), msg.clone())];
+            if !released { out.push(("C09".to_string(), msg)); }
+            return out;
+        }
+    }
+    vec![]
+}
+
+fn race_probe(s: &str) -> Vec<(String, String)> {
+    let mut n = 2000usize; let mut spin = 3000usize; let mut cap: Option<usize> = Some(0);
+    for kv in s.split(';') {
+        let mut it = kv.splitn(2, '=');
+        let (k, v) = (it.next().unwrap_or(""), it.next().unwrap_or(""));
+        match k { "race" => n = v.parse().unwrap_or(n), "spin" => spin = v.parse().unwrap_or(spin), "cap" => cap = if v == "u" { None } else { v.parse().ok() }, _ => {} }
+    }
+    struct D(Mutex<Sender<()>>);
+    impl MetricSink for D { fn emit(&self, m: &str) -> io::Result<usize> { Ok(m.len()) } }
+    impl Drop for D { fn drop(&mut self) { let _ = self.0.lock().unwrap_or_else(|e| e.into_inner()).send(()); } }
+    let mut hung = 0usize;
+    for i in 0..n {
+        let (tx, rx) = channel();
+        let q = match cap { Some(c) => QueuingMetricSink::with_capacity(D(Mutex::new(tx)), c), None => QueuingMetricSink::from(D(Mutex::new(tx))) };
+        for _ in 0..((i * 7) % (spin + 1)) { std::hint::spin_loop(); }
+        drop(q);
+        if rx.recv_timeout(Duration::from_secs(2)).is_err() { hung += 1; if hung >= 3 { break; } }
+    }
+    if hung > 0 { vec![("C09".into(), format!("capacity {:?}: after the last handle was dropped the wrapped sink was still alive 2 s later in {} round(s): the background thread did not terminate", cap, hung))] } else { vec![] }
+}
 
 pub fn check(c: &Case) -> Vec<(String, String)> {
     let prev_hook = std::panic::take_hook();
@@ -181,6 +279,23 @@ fn finish(f: Vec<(String, String)>) -> Vec<(String, String)> { f }
 
 pub fn search(prop: &str, seed: u64, budget: u64) -> Option<(String, Vec<(String, String)>)> {
     let mut rng = Rng::new(seed);
+    if prop == "C08" || prop == "C12" {
+        // concurrent producers whose first emits overlap
+        for cap in ["u", "4"] {
+            let c = format!("par={};threads=4;cap={}", budget.min(40).max(10), cap);
+            let f: Vec<(String, String)> = par_probe(&c).into_iter().filter(|(p, _)| p == prop).collect();
+            if !f.is_empty() { return Some((c, f)); }
+        }
+        if prop == "C12" { return None; }
+    }
+    if prop == "C09" {
+        // the drop racing with the start of the worker thread, for the capacities 0, 1 and unbounded
+        for cap in ["0", "1", "u"] {
+            let c = format!("race={};spin=3000;cap={}", (budget * 20).min(8000), cap);
+            let f = race_probe(&c);
+            if !f.is_empty() { return Some((c, f)); }
+        }
+    }
     for _ in 0..budget.min(400) {
         let cap = match rng.below(4) { 0 => None, k => Some(k as usize) };
         let nops = 2 + rng.below(7) as usize;
